@@ -1,7 +1,31 @@
 """C04 — emitted DirectX HLSL is accepted by the front end and is a fixpoint."""
 import os
+import subprocess
 
 T = "RsslVerif.Thm.C04."
+
+# The legs of the composition are the property theorems of other properties.  Their obligations are obligations of C04
+# as well: if one of them no longer checks (a table can not be re-extracted, a theorem stops type-checking), C04 reports a
+# broken obligation and starts its own witness search (`search` below), whose inputs exercise exactly that leg.
+LEG_GENS = ["LexTables",                      # C10: literal_int / literal_float / digit tables of preprocess/src/lexer.rs
+            "FmtTables", "ParseTables",       # C09: printer precedence / spelling tables, parser levels
+            "Reserved"]                       # C15: reserved words of the HLSL name generator
+LEG_MODULES = ["RsslVerif.Thm.C10", "RsslVerif.Thm.C09", "RsslVerif.Thm.C15"]
+LEG_THEOREMS = (
+    # literals re-read exactly (C10): the shape of calculate_float64_from_parts is the modelled one, the value is the
+    # nearest double / float of the digits, integers are exact or rejected
+    ["RsslVerif.Thm.C10." + n for n in [
+        "float_parts_shape_as_modelled", "lex_float_nearest", "nearest64_correct", "nearest64_total", "nearest_correct",
+        "nearest_exact_on_representable", "int_value_exact", "int_overflow_rejected", "literalInt_radix",
+        "token_numeric_dispatch"]] +
+    # printing and parsing are inverse (C09)
+    ["RsslVerif.Thm.C09." + n for n in [
+        "tables_agree", "assoc_agrees", "ternary_level", "unary_tables_agree", "paren_rule_matches_grammar",
+        "glue_prefix_prefix", "glue_postfix_next", "roundtrip_expr_partial", "roundtrip_subexpr_partial",
+        "roundtrip_comma_positions_partial", "literal_roundtrip_partial", "decimal_roundtrip"]] +
+    # first-generation names are unique and unreserved, so the second name generation keeps them (C15)
+    ["RsslVerif.Thm.C15." + n for n in [
+        "reserved_complete", "never_reserved", "injective_per_scope", "verbatim", "locals_apart_from_used"]])
 
 
 def custom(ctx):
@@ -11,17 +35,95 @@ def custom(ctx):
     corpus = os.path.join(root, "corpus", "C04.txt")
     if os.path.exists(corpus) and os.path.getsize(corpus) > 0:
         cases, _ = ctx.run_harness(["c04", "--requests", corpus])
-        ctx.correspond(cases, compare_model=False)
+        ctx.correspond(cases)
     cases, stats = ctx.run_harness(["c04", "--tier", ctx.tier, "--seed", str(ctx.seed)])
     ctx.stats.extend(stats)
-    ctx.correspond(cases, compare_model=False)
-    ctx.extra["model_comparison"] = ("none at whole-program level: the fixpoint run is the property's own oracle; the stage "
-                                     "models (C09 printer/parser, C10 lexer, C15 names, C06 slots) are compared with the code "
-                                     "in their own checks")
+    ctx.correspond(cases)
+    ctx.extra["model_comparison"] = ("C04.reelab: the model predicts the second-generation IR skeleton of every expression "
+                                     "position (erase, unelab, elabTop, conversion) and is compared with what the real front end "
+                                     "makes of the real emitted text; C04.fix (whole-program byte fixpoint and slots) has no "
+                                     "model side, it is the property's own oracle (the model answers `unsupported`)")
+
+
+def _harness_exe():
+    import vlib
+    return vlib.HARNESS_EXE
+
+
+def _source_of(ident):
+    if ident.startswith("text:"):
+        try:
+            return bytes.fromhex(ident[5:]).decode("utf-8", "replace")
+        except ValueError:
+            return None
+    if ident.startswith(("lit:", "gen:", "decl:")):
+        try:
+            r = subprocess.run([_harness_exe(), "c04", "source", ident], capture_output=True, text=True, timeout=60)
+        except Exception:
+            return None
+        return "\n".join(l for l in r.stdout.split("\n") if not l.startswith("WARNING conda"))
+    return None
+
+
+def shrink(req):
+    """drop one source line at a time (a candidate the front end rejects is not a failure and is discarded by vlib)"""
+    f = req.split("\t")
+    if len(f) >= 2 and f[0] in ("C04.reelab", "C04.accept"):
+        lines = f[1].split("\\n")
+        for i in range(len(lines)):
+            if lines[i].strip() in ("", "{", "}"):
+                continue
+            yield "\t".join(["C04.reelab", "\\n".join(lines[:i] + lines[i + 1:]), "-", "-"])
+        return
+    if len(f) < 2 or f[0] != "C04.fix":
+        return
+    src = _source_of(f[1])
+    if not src:
+        return
+    lines = src.split("\n")
+    if f[1][:5] != "text:":
+        # the same program as an explicit text request (so that the replay file carries the source itself)
+        yield "C04.fix\ttext:" + src.encode().hex()
+    for i in range(len(lines)):
+        if lines[i].strip() in ("", "{", "}"):
+            continue
+        cand = "\n".join(lines[:i] + lines[i + 1:])
+        yield "C04.fix\ttext:" + cand.encode().hex()
+
+
+def search(ctx):
+    """inputs tried on the real compiler when an obligation (own or of a cited leg) no longer checks: programs built
+    around what each leg guarantees — literals of every suffix and length (C10), operator nestings whose printed form
+    depends on the precedence tables (C09), names that collide with reserved words or with each other (C15), and
+    conversions of every kind (C03)"""
+    out = []
+    try:
+        r = subprocess.run([_harness_exe(), "c04", "search-requests"], capture_output=True, text=True, timeout=60)
+        out += [l for l in r.stdout.split("\n") if l.startswith("C04.fix\t")]
+    except Exception:
+        pass
+    for src in SEARCH_SOURCES:
+        out.append("C04.fix\ttext:" + src.encode().hex())
+    # and a slice of the literal stream with other seeds
+    out += ["C04.fix\tlit:%d" % (1000003 * k + ctx.seed) for k in range(1, 120)]
+    return out
+
+
+SEARCH_SOURCES = [
+    "int f(int a, int b, bool c) { int r = (a, b); r = c ? a : (b = 3); r = -(-a) - -a + +(+a); return a - (b - 1) - (a / (b | 1)) * 2 % 5; }\n",
+    "bool f(int a, uint b) { return a < b || (a == -1 && b != 0u) == !(a > 0); }\nuint g(uint a, int s) { a <<= s; a >>= 1; a = a >> (uint)s << 1; return a; }\n",
+    "int k(int a) { return 1; }\nint k(float a) { return 2; }\nint k(uint a, uint b) { return 3; }\n"
+    "void f(bool t, uint u, int i, float x) { int w = k(t + 1); w = k(u, 1); w = k(x); uint v = t ? 1 : 2; const int ci = 3; float ff = ci + 1.5; }\n",
+    "struct S { int line; float sample; };\nstatic int point;\nint triangle(int discard_) { int in_ = discard_; int out_ = in_ + point; return out_; }\n",
+    "void f(bool t, uint u, int i, float x) { float y = -1.5f; int j = -3; uint v = ~0u; bool c = !i; int n = ~t; y = -x; j = -(-3); y = t ? 1 : 2.5; y = i ? x : 1; u = u << 1; i = i >> t; }\n",
+]
 
 
 def nontrivial(req, obs):
-    return obs.startswith("ok:")
+    return obs.startswith("ok:") or obs.startswith("fn ")
+
+
+TEMPLATE_LOOKAHEAD_KEY = "rejected-by-parser: less-than ... greater-than followed by `(` is read as template arguments and a call"
 
 
 def finding_key(req, obs, detail):
@@ -30,34 +132,90 @@ def finding_key(req, obs, detail):
     m = re.match(r"FAIL:panic ([^:]+):\d+: (.*)$", detail or "")
     if m:
         return f"panic {m.group(1)}: " + re.sub(r"\d+", "N", m.group(2))
+    if "emitted HLSL is rejected" in (detail or "") and "failed to parse source" in detail:
+        # the printed line the parser gave up on: `x < y ... > (z)` is tried as a template argument list followed by a
+        # call (known C09 class `a < a > (a & a)`); identified by the shape of the offending line, not by the program
+        line = detail.split("failed to parse source", 1)[1]
+        if re.search(r"[^<]<(?![<=]).*[^>\-]>(?![>=]) \(", line):
+            return TEMPLATE_LOOKAHEAD_KEY
+    if req.startswith("C04.reelab\t") or req.startswith("C04.accept\t"):
+        # the specific input: the source text (ctx / ir are derived from it)
+        return "C04.reelab\t" + req.split("\t")[1]
     return req
 
 
 SPEC = {
     "id": "C04",
-    "gens": ["SlotTables"],
-    "lean_modules": ["RsslVerif.Thm.C04"],
-    "theorems": [T + "slots_stable", T + "run_explicit", T + "step_explicit"],
+    "gens": ["SlotTables", "FixpointTables", "RankTable", "TypingTables", "HlslGenTables", "HlslIntrinsicTables",
+             "MetaTables", "CompileTables"] + LEG_GENS,
+    "lean_modules": ["RsslVerif.Thm.C04"] + LEG_MODULES,
+    "theorems": [T + n for n in [
+        "slots_stable", "run_explicit", "step_explicit",
+        "dx_params", "slots_stable_reread", "annotations_stable", "reread_names_group",
+        "reread_table_agrees", "cast_drop_agrees", "reread_only_int32",
+        "reelab_no_new_casts", "reelab_stmt_no_new_casts", "export_is_source", "unelab_is_export", "renamed_exists",
+        "reelab_idempotent", "reelab_fails_out_argument",
+        "bridge_square", "skeleton_and_constants", "reread_payloads_as_modelled", "leaf_value_preserved", "parsesBack_of_c09", "fixpoint_expr", "fixpoint_expr_text", "fixpoint_stmt",
+        "namesAgreeEx", "idxInjEx"]] + LEG_THEOREMS,
     "harness": "c04",
     "custom": custom,
     "nontrivial": nontrivial,
     "finding_key": finding_key,
-    "rule": "programs = type-directed generated sources using every declaration kind (enum, struct with method, static/"
+    "shrink": shrink,
+    "search": search,
+    "rule": "C04.fix: programs = type-directed generated sources using every declaration kind (enum, struct with method, static/"
             "groupshared globals, cbuffer with register, resources of 16 object types with register/space annotations and "
             "bind-group attributes, arrays, function template, namespace, overloads, default / out / inout parameters, every "
-            "statement form, casts, swizzles, intrinsics) + resource/pipeline programs + the repository's inputs under tests/; "
-            "each compiled for DirectX in no-pipeline mode and the emitted text compiled again; the second generation must be "
-            "accepted, byte-identical and keep every binding slot; non-trivial = the source was accepted",
-    "level_text": "Proof by composition, partial: the slot-stability leg is proved here over the C06 allocator model (re-running "
-                  "the allocator on the sequence with explicit groups reproduces every binding and inline block, for all "
-                  "sequences); the other legs are the property theorems of C09 (print/parse round trip), C10 (literals re-read "
-                  "exactly), C15 (unique unreserved names are kept) in their own modules. The composition itself (export "
-                  "preserves declaration order/kinds, re-elaboration adds no conversions) is not a theorem: it is exercised by "
-                  "the literal fixpoint run on generated programs and the repository corpus.",
+            "statement form, casts, swizzles, intrinsics) + resource/pipeline programs + the literal stream (numeric literals of "
+            "every suffix: 20-30 digit decimals, shortest 15-17 digit doubles, over-long expansions, exponent forms, subnormal / huge "
+            "magnitudes, -0.0, integer limits, hex; as global / local initialisers, call arguments, operands and array sizes) + the "
+            "repository's inputs under tests/; each compiled for DirectX in no-pipeline mode and the emitted text compiled again; "
+            "the second generation must be accepted, byte-identical and keep every binding slot. C04.reelab: scalar programs of "
+            "C01's generator + fixed sources; real first IR -> real emitted text -> real front end again; the model predicts the "
+            "skeleton (constant kinds, casts, operators, call targets, names) of every expression position of the second IR; oracle = "
+            "accepted and byte-identical second text; non-trivial = the source was accepted",
+    "level_text": "Proof by composition, machine-checked for expressions. (1) reelab_no_new_casts: for every expression of the C03 "
+                  "elaboration model (all operators, ?:, comma, casts, calls through overload resolution; scalar / vector / matrix / "
+                  "modified types; induction over all source expressions, debug and release builds) every syntax tree the front end "
+                  "can read from the export of the elaborated expression (Unelab: generate_expression node by node - typed Int32 "
+                  "constants lose their kind, negative constants become minus applied to the magnitude, casts to literal types are "
+                  "dropped, every function has a name of its own) elaborates to the same IR again: no conversion added or lost, same "
+                  "overload, same literal kinds; also for expression statements, return and initialised definitions; idempotent from "
+                  "the first generation on. Where it is false the negation is proved with a witness and replayed: a Cast passed for an "
+                  "out / inout parameter (T <-> T1) makes the emitted text rejected (known finding). (2) bridge_square: the exporter "
+                  "model of C01 (GenHlsl.genExpr, tied by C01's correspondence) read back by the front end (parse_literal, name lookup) "
+                  "is such a tree. (3) fixpoint_expr / fixpoint_expr_text: composition of (1), (2), the C09 round trip "
+                  "(roundtrip_expr_partial, for cast-free trees) and injectivity of skeleton + constants: the second generation of an "
+                  "expression of the scalar subset is the first and prints the same text; named hypotheses: name hygiene (C15), literal "
+                  "exactness (C10); leaf_value_preserved discharges the latter at the level of constants (every printable constant incl. "
+                  "i32::MIN gets its value back through generate_literal, parse_literal, sign folding, re-tagging). (4) "
+                  "slots_stable_reread: the allocator re-run (default group 0) on the declarations whose bind group is re-read character "
+                  "by character from the printed register(..) annotations (C05's reader) reproduces every group, index, register class "
+                  "and inline block, for all declaration sequences. The legs' property theorems (C10 literals, C09 round trip, C15 "
+                  "names) and their Gen tables are obligations of C04. Partial: structural statements, declarations, structs, "
+                  "templates, intrinsic calls and the text leg of trees with casts are not in a Lean composition theorem; they are "
+                  "exercised by the whole-program fixpoint run and the re-elaboration stream.",
     "trusted_base": [
-        "Lean 4.33 kernel; axioms propext / Classical.choice / Quot.sound only",
-        "Model/Slots.lean (tied to the code by C06's correspondence) and Gen.SlotTables",
-        "the composition of stage theorems into the whole-program fixpoint is argued in DESIGN.md, not machine-checked",
+        "Lean 4.33 kernel; axioms propext / Classical.choice / Quot.sound only (audited by #print axioms)",
+        "Model/Elab.lean, Conv.lean, Overload.lean, IrTyping.lean (C03 / C16 models, tied to the code by their correspondence runs) "
+        "and Gen.RankTable / Gen.TypingTables",
+        "Model/GenHlsl.lean (C01 exporter model, tied by C01's correspondence) and Gen.HlslGenTables; Model/Format.lean, Parse.lean "
+        "(C09), Model/Slots.lean, Meta.lean, Spec/Meta.lean (C06 / C05)",
+        "Model/Fixpoint.lean: Unelab / unelab (the exporter on the C03 expression type; proved equal to the C01 exporter model read "
+        "back by the front end on the scalar subset: bridge_square), rereadTable, litTyped, opSyn - compared with the re-extracted "
+        "tables Gen.FixpointTables / HlslGenTables by theorems on every run",
+        "Model/FixpointBridge.lean: erase (abstraction map between the two IR models, not a mirror of code), readBack (what "
+        "parse_expr_internal does with each syntax node before typing), rereadConst / negConst / retagTo (payloads; tied by "
+        "reread_payloads_as_modelled and by the value-level byte comparison of the correspondence runs)",
+        "tools/gens/c04.py (FixpointTables: parse_literal, the to_literal test of the Cast arm, the literal shortcut of apply)",
+        "the C04.reelab correspondence run: the model's prediction of the second-generation IR skeleton vs the real front end on the "
+        "real emitted text",
     ],
-    "assumptions": ["Rust's shortest round-trip float formatting and correctly rounded parsing (f64 Display / FromStr)"],
+    "assumptions": [
+        "Rust's shortest round-trip float formatting and correctly rounded parsing (f64 Display / FromStr)",
+        "name hygiene (C15 verbatim / never_reserved / injective_per_scope) enters fixpoint_expr as the hypotheses NamesAgree and "
+        "Renamed; literal exactness (C10) as the hypothesis that the second generation's constants are the first's",
+        "the print / parse round trip of exported trees that contain casts is assumed (ParsesBack): C09's model has no cast node",
+        "in the second generation no pipeline is selected (default bind group 0), as in the property's observation point",
+    ],
 }
